@@ -283,6 +283,10 @@ def live_tree(pi: int, mut: int, ns: int, svc_state: int, app_state: int, nic_en
     if st != "ON" and not (len(request) == 4 and request[3] == "startup"):
         # a node that is not ON refuses every request except start-up (node-is-on permission rule on every route)
         check(not reached, f"request {request} reached its handler although the node is {st}")
+    if len(request) == 4 and request[3] == "startup" and st != "OFF" and not mutated:
+        # ... and start-up itself is only for a node that is OFF (node-is-off permission rule)
+        check(not reached, f"the start-up request reached its handler although the node is {st}, not OFF")
+        check(resp.status == "failure", lambda: f"the start-up request on a node that is {st} answered {resp.status}")
     if not reached:
         cover("not_reached")
         check(resp.status in ("unreachable", "failure"), f"request {request} did not reach its handler but answered {resp.status}")
